@@ -133,6 +133,8 @@ def run_sequence(calls):
                 res = "raised:KeyError"
             except RuntimeError:
                 res = "raised:RuntimeError"
+            except Exception as e:  # noqa: BLE001 - whatever else the call raises is part of what is compared
+                res = "raised:" + type(e).__name__
             ems = sorted(f"{e.wid}:{int(e.is_alive())}" for e in obs.emitters)
             out.append(res + "[" + ",".join(ems) + "]")
         # which handlers would receive an event of each watch: the public dispatch path on a private queue
@@ -145,10 +147,13 @@ def run_sequence(calls):
             obs.dispatch_events(q)
             handlers_final[w] = sorted(str(h.hid) for h in hs if h.seen)
         alive[0] = obs.is_alive()
-        # clean up whatever is still running (not part of the compared sequence)
-        obs.stop()
-        if obs.is_alive():
-            obs.join()
+        # clean up whatever is still running; stop() never raises in the reference map
+        try:
+            obs.stop()
+            if obs.is_alive():
+                obs.join()
+        except Exception as e:  # noqa: BLE001
+            out.append("FINAL-STOP-RAISED:" + type(e).__name__)
 
     sched = detsched.Scheduler(explore.prefix_chooser([]), max_steps=5000)
     failure = None
@@ -261,6 +266,12 @@ def run(res, tier, lean, proof_breaks=(), build_log=""):
             res.violation(f"observer registry deviates from the reference map ({sig}): implementation {i!r} expected {o!r}",
                           {"calls": seq, "request": line, "implementation": i, "model": o, "mismatching_sequences": len(bs)},
                           signature=sig)
+
+
+    # concurrent callers: client programs on the real observer under the deterministic scheduler (shared with C04-C06),
+    # judged by "never two emitters for one watch"
+    import obs_check
+    obs_check.run(res, tier, lean, prop="C13", proof_breaks=proof_breaks, build_log=build_log)
 
 
 def replay(res, path, lean):
